@@ -40,7 +40,8 @@ def parse_trait_call(c):
     a = find_top(inner, " as ")
     if a < 0:
         return (inner.strip(), None, rest)
-    return (inner[:a].strip(), inner[a + 4:].strip(), re.sub(r"::<.*$", "", rest))
+    trait = re.sub(r"^(?:[a-z_0-9]+::)+", "", inner[a + 4:].strip())
+    return (inner[:a].strip(), trait, re.sub(r"::<.*$", "", rest))
 
 
 def big_of(E, v):
@@ -79,7 +80,7 @@ def dispatch(E, c, args):
     tc = parse_trait_call(c)
     # ------------------------------------------------------------ Try / FromResidual
     if tc and tc[1] == "Try" and tc[2] == "branch":
-        v = deref(E, args[0])
+        v = E.force_arg(args[0])
         if v.ty == "Result":
             return VEnum("ControlFlow", "Continue", [v.fields[0]]) if v.variant == "Ok" else VEnum("ControlFlow", "Break", [VEnum("Result", "Err", [v.fields[0]])])
         if v.ty == "Option":
@@ -141,6 +142,14 @@ def dispatch(E, c, args):
     if tc and tc[1] in ("Deref", "DerefMut", "AsRef<[u64]>", "Borrow") and tc[2] in ("deref", "deref_mut", "as_ref", "borrow"):
         v = args[0]
         inner = deref(E, v)
+        from engine import VLazy
+        if isinstance(inner, VLazy) and last_seg(inner.ty) in ("Rc", "Box", "Arc"):
+            r = v
+            while isinstance(E.read_ref(r), VRef):
+                r = E.read_ref(r)
+            k = find_top(inner.ty, "<")
+            ety = inner.ty[k + 1:match_close(inner.ty, k)]
+            return VRef(r.cell, r.path + (("field", 0, ety),))
         if isinstance(inner, VStruct) and inner.name in ("Rc", "Box", "Arc") and inner.fields:
             r = v
             while isinstance(E.read_ref(r), VRef):
@@ -161,6 +170,11 @@ def dispatch(E, c, args):
             a, b = deref(E, args[0]), deref(E, args[1])
             t = val_eq(E, a, b)
             return VBool(t if tc[2] == "eq" else z3.Not(t))
+    if tc and tc[1] and tc[1].startswith("PartialEq") and tc[2] == "ne":
+        d = E.P.resolve(c[:-2] + "eq")
+        if d is not None:
+            r = E.run_fn(E.P.fns[d], args)
+            return VBool(z3.Not(r.t))
     if tc and tc[1] in ("Ord", "PartialOrd") or (tc and tc[1] and tc[1].startswith("PartialOrd")):
         a, b = deref(E, args[0]), deref(E, args[1])
         if isinstance(a, (VInt, VBig)) and isinstance(b, (VInt, VBig)):
@@ -347,7 +361,7 @@ def dispatch(E, c, args):
     m = re.match(r"^std::(option::Option|result::Result)::<.*?>::(\w+)(::<.*>)?$", c, re.S)
     if m:
         meth = m.group(2)
-        v = deref(E, args[0]) if args else None
+        v = E.force_arg(args[0]) if args else None
         isopt = m.group(1).startswith("option")
         good = "Some" if isopt else "Ok"
         if not isinstance(v, VEnum):
@@ -383,6 +397,10 @@ def dispatch(E, c, args):
             if v.variant == "Err":
                 return err(E.call_value(args[1], [v.fields[0]]))
             return v
+        if meth == "or_else":
+            if v.variant == good:
+                return v
+            return E.call_value(args[1], [] if isopt else [v.fields[0]])
         if meth == "and_then":
             if v.variant == good:
                 return E.call_value(args[1], [v.fields[0]])
